@@ -149,11 +149,23 @@ def volume_equalities(b):
 def is_volume_of_realpath(t, want):
     """t = <volume walk>(realpath(X)) with want(X).  The volume walk is the
     dirname-fixpoint loop seeded with abspath(realpath(X))."""
-    found = False
-    for x in walk(t):
-        if isinstance(x, Call) and x.fn == 'os.path.realpath' and x.args and want(x.args[0]):
-            found = True
-    return found
+    # the walk starts *at* the resolved path: abspath(realpath(X)) (or realpath(X)) is one
+    # of the values of the walk variable -- not dirname(realpath(X)), which is the volume of
+    # the directory that holds X (wrong when X itself is a mount point)
+    def resolved(y):
+        return is_call(y, 'os.path.realpath') and bool(y.args) and want(y.args[0])
+    for a in flat(t):
+        if isinstance(a, BoolT) and a.op == 'or':
+            # "forced_volume or <volume of the parent>": the computed alternative counts
+            if any(is_volume_of_realpath(v, want) for v in a.values):
+                return True
+            continue
+        if resolved(a):
+            return True
+        if is_call(a, 'os.path.abspath', 'os.path.normpath') and a.args and \
+                any(resolved(y) for y in flat(a.args[0])):
+            return True
+    return False
 
 
 def gate_rule(ctx, r):
